@@ -62,6 +62,7 @@ where
         let cfg = config.clone();
         let l = par_chunks(threads, pats.len(), |lo, hi, l| {
             for &b in &pats[lo..hi] {
+                l.enter(&cfg, op, || vec![format!("{:#x}", b)], 0);
                 let e: Expect<Z> = Expect::Is(Obs::V(floatspec::float_to_int(b, f, ti)));
                 let o = guard(|| Obs::V(if f == F32 { T::cast_from(f32::from_bits(b as u32)).z::<Z>() } else { T::cast_from(f64::from_bits(b)).z::<Z>() }));
                 l.check(&cfg, op, || vec![format!("{:#x}", b)], 0, &e, &o);
@@ -94,6 +95,31 @@ where
             }
         });
         run.merge(&config, "all 2^32 f32 bit patterns", "cast_from_f32", 1u64 << 32, l);
+        // every f64 whose low 32 bits are 0, 1 or all ones: all 2^32 high words (sign, exponent, top 20
+        // mantissa bits) x 3 low words
+        let cfg = config.clone();
+        let l = par_chunks(threads, 1usize << 20, |lo, hi, l| {
+            for blk in lo..hi {
+                for low in 0..(1u64 << 12) {
+                    let high = ((blk as u64) << 12) | low;
+                    for lw in [0u64, 1, 0xffff_ffff] {
+                        let b = (high << 32) | lw;
+                        let (neg, mag) = floatspec::f64_to_int_fast(b, T::BITS, T::SIGNED);
+                        let x = T::cast_from(f64::from_bits(b));
+                        let want = if neg { (mag as i128).wrapping_neg() as u128 } else { mag };
+                        let mask = if T::BITS == 128 { u128::MAX } else { (1u128 << T::BITS) - 1 };
+                        l.transitions += 1;
+                        if low_u128(&x) != (want & mask) {
+                            let e: Expect<Z> = Expect::Is(Obs::V(floatspec::float_to_int(b, F64, ti)));
+                            let o = Obs::V(x.z::<Z>());
+                            l.transitions -= 1;
+                            l.check(&cfg, "cast_from_f64", || vec![format!("{:#x}", b)], 0, &e, &o);
+                        }
+                    }
+                }
+            }
+        });
+        run.merge(&config, "all 2^32 high words of f64 x low word in {0, 1, ffffffff}", "cast_from_f64", 3u64 << 32, l);
     }
 }
 
@@ -193,6 +219,7 @@ where
         let cfg = config.clone();
         let l = par_chunks(run.threads, xs.len(), |lo, hi, l| {
             for x in &xs[lo..hi] {
+                l.enter(&cfg, op, || vec![hex(&x.le())], 0);
                 let (e, o) = one(x, f);
                 l.check(&cfg, op, || vec![hex(&x.le())], 0, &e, &o);
             }
